@@ -194,6 +194,70 @@ def split_chain(execs, chk):
     return out
 
 
+def relational_kdf(chk, exe, r, kind):
+    """Dense sweeps judged relationally against one long reference output that is itself validated block by block.
+    kind 'hkdf': every one-shot length 0..640 is a prefix of the reference; random partitions of up to 700 bytes (and
+    partitions crossing 8160) into expand calls return consecutive slices of it.  kind 'pbkdf2': every length 0..200."""
+    execs = []
+    if kind == 'hkdf':
+        for pi in range(2 if not chk.thorough else 5):
+            key, salt, info = r.bytes(5 + 30 * pi), r.bytes([0, 20, 64, 65, 100][pi]), r.bytes([0, 3, 129, 200, 17][pi])
+            base = f"key={hx(key)} salt={hx(salt) if salt else 'null'} info={hx(info)}"
+            lines = [f"hkdf id=ref{pi} len=8160 {base}"] + [f"hkdf id=pre{pi}-{n} len={n} {base}" for n in range(0, 641)]
+            nparts = 60 if not chk.thorough else 200
+            parts = []
+            for q in range(nparts):
+                seq, tot = [], 0
+                lim = 700 if q % 6 else 8400
+                while tot < lim and len(seq) < 40:
+                    n = r.choice([0, 1, 5, 31, 32, 33, 64, 100, 224, 246, 255, 256, 257, 300]) if lim == 700 else r.choice([32, 255, 256, 1000, 2048, 4000, 8129])
+                    seq.append(n); tot += n
+                parts.append(seq)
+                o = q % 8
+                lines.append(f"hkextract id=pt{pi}-{q}x obj={o} key={hx(key)} salt={hx(salt) if salt else 'null'}")
+                lines += [f"hkexpand id=pt{pi}-{q}e{j} obj={o} info={hx(info)} len={n} off={j % 8}" for j, n in enumerate(seq)]
+            ev, _ = run_driver(exe, [f"reset id=rel{pi}"] + lines, timeout=900)
+            tag = [pi]
+            ex = [ev[0]]
+            ref = next((e for e in ev if e.get('id') == f"ref{pi}"), None)
+            if ref is None or 'out' not in ref:
+                execs.append(ev)
+                continue
+            ex.append(dict(e='KdfLearn', id=f"ref{pi}", tag=tag, out=ref['out']))
+            for e in ev[1:]:
+                if e.get('e') == 'Hkdf' and e['id'].startswith('pre'):
+                    ex.append(dict(e='KdfPrefix', id=e['id'], tag=tag, len=e['len'], res=e['res'], canary=e['canary'], out=e.get('out', [])))
+                elif e.get('e') == 'HkExtract':
+                    ex.append(dict(e='KdfExtract', id=e['id'], obj=e['obj'], tag=tag))
+                elif e.get('e') == 'HkExpand':
+                    ex.append(dict(e='KdfExpand', id=e['id'], obj=e['obj'], len=e['len'], res=e['res'], out=e['out'], canary=e['canary'], ocanary=e['ocanary']))
+                elif e.get('e') in ('Fault',):
+                    ex.append(e)
+            execs.append(ex)
+            execs.append([{"e": "Reset", "id": f"refv{pi}"}, dict(ref, id=f"refcheck{pi}")])      # the reference itself, interpreted
+        chk.cov['relational_hkdf_events'] = sum(len(x) for x in execs)
+    else:
+        for pi in range(2 if not chk.thorough else 4):
+            pw, salt, count = r.bytes([7, 64, 100, 65][pi]), r.bytes([8, 0, 33, 200][pi]), [2, 3, 1, 5][pi]
+            base = f"count={count} pw={hx(pw)} salt={hx(salt) if salt else 'null'}"
+            lines = [f"pbkdf2 id=ref{pi} len=320 {base}"] + [f"pbkdf2 id=pre{pi}-{n} len={n} {base} off={n % 8}" for n in range(0, 301)]
+            ev, _ = run_driver(exe, [f"reset id=rel{pi}"] + lines, timeout=900)
+            ref = next((e for e in ev if e.get('id') == f"ref{pi}"), None)
+            if ref is None:
+                execs.append(ev)
+                continue
+            ex = [ev[0], dict(e='KdfLearn', id=f"ref{pi}", tag=[100 + pi], out=ref['out'])]
+            for e in ev[1:]:
+                if e.get('e') == 'Pbkdf2' and e['id'].startswith('pre'):
+                    ex.append(dict(e='KdfPrefix', id=e['id'], tag=[100 + pi], len=e['len'], res=0, canary=e['canary'], out=e['out']))
+                elif e.get('e') == 'Fault':
+                    ex.append(e)
+            execs.append(ex)
+            execs.append([{"e": "Reset", "id": f"refv{pi}"}, dict(ref, id=f"refcheck{pi}")])
+        chk.cov['relational_pbkdf2_events'] = sum(len(x) for x in execs)
+    return execs
+
+
 def judge_h(chk, exe, execs, groups, cost=hcost, nontrivial=None):
     res = validate(chk.wd, 'TV_Hash', execs, cost=cost)
     chk.add_validation('TV_Hash', res, execs, nontrivial=nontrivial)
@@ -366,7 +430,7 @@ def check_C11(chk):
         g.append(f"hfinal id=c{ci}-f obj={o} op=1")
         groups.append(g)
     # long messages (around 2^8, 2^12, 2^16 and beyond), opaque: odd splits against the one-shot digest
-    for bi, n in enumerate([255, 256, 257, 4095, 4097, 65535, 65536, 65537, 131073] + ([1 << 20, (1 << 20) + 17] if chk.thorough else [])):
+    for bi, n in enumerate([255, 256, 257, 4095, 4097, 65535, 65536, 65537, 131073, (1 << 20) + 17] + ([1 << 20, (1 << 21) + 5] if chk.thorough else [])):
         seedv = r.randint(1, 2 ** 40)
         full = f"@{seedv},{n},r"
         m = gen_data_py(seedv, n, 'r')
@@ -572,6 +636,7 @@ def check_C13(chk):
         if g:
             groups.append(g)
     execs = run_exec_groups(exe, groups)
+    execs += relational_kdf(chk, exe, r, 'hkdf')
     execs2 = [y for x in split_long(execs) for y in split_incremental(x)]
     judge_h(chk, exe, execs2, None)
     nref = sum(1 for ex in execs for e in ex if e.get('e') in ('HkExpand', 'Hkdf') and e.get('res') == -1)
@@ -619,6 +684,7 @@ def check_C14(chk):
         lines.append(f"pbkdf2 id=chain{c} len={33 if c < 5000 else 20} count={c} pw={datav(r, 7 + c % 70)} salt={datav(r, 16)} chain=1")
     groups = chunks(lines, 2)
     execs = run_exec_groups(exe, groups)
+    execs += relational_kdf(chk, exe, r, 'pbkdf2')
     execs2 = split_long(split_chain(execs, chk))
     judge_h(chk, exe, execs2, None)
     chk.cov['prf_chain_links_validated'] = sum(1 for ex in execs2 for e in ex if e.get('e') == 'PbLink')
